@@ -31,6 +31,8 @@ def run(ctx):
     ctx.guarded('R05d', LOCAL, lambda: r05d(ctx))
     ctx.rule('R05e', 'the shard-level query hands on one matcher answer unchanged: every Some it returns is the whole (count, entry) pair of a single chunk_hash_dedup_query_direct call, never a count and an entry taken from different candidates')
     ctx.guarded('R05e', WRAP, lambda: r05e(ctx))
+    ctx.rule('R05f', 'the deduper\'s self-reference map speaks about the pending xorb: it is emptied wherever the pending chunk list is emptied, and a hash is entered with the position its chunk is pushed at')
+    ctx.guarded('R05f', LOCAL, lambda: r05f(ctx))
 
 
 def loop_of(a, b):
@@ -518,3 +520,66 @@ def r05e(ctx):
                 n += 1
                 ctx.check(False, 'R05e', fn, 'answer', a.loc(b, si), '', 'cannot establish that the returned value (%s) is the answer of one matcher call' % flow.show(se)[:80])
     ctx.floor('R05e', 'returned values inspected', n, 2)
+
+
+def r05f(ctx):
+    """C05e: cut_new_xorb stopped clearing new_data_hash_lookup: after a cut the map still holds positions of the previous
+    xorb, and the local matcher answers 'these hashes are at chunks [p, p+n) of the pending xorb' from them.
+    Obligations over every method of FileDeduper: (1) a body that empties self.new_data empties self.new_data_hash_lookup on
+    every path to its return; (2) every insert into the map stores self.new_data.len() and is followed, before the next
+    insert or the return, by the push of the chunk with that hash; (3) nothing else writes the map."""
+    FD = 'deduplication::file_deduplication::FileDeduper::<DataInterfaceType>::'
+    EMPTY = ('clear', 'take', 'drain', 'truncate', 'split_off', 'replace', 'swap')
+    n_empty = n_ins = 0
+    is_list = lambda z: flow.show(z).endswith('self.new_data')
+    is_map = lambda z: flow.show(z).endswith('self.new_data_hash_lookup')
+    for p_, b_ in sorted(ctx.F.bodies.items()):
+        if not p_.startswith(FD) or b_.get('crate') != 'deduplication':
+            continue
+        a = an(b_)
+        calls = a.calls()
+        def nm(c):
+            return sg(a.term(c).get('fn', '')).split('::')[-1]
+        list_empt = [c for c in calls if nm(c) in EMPTY and a.term(c)['args'] and is_list(a.arg(c, 0))]
+        list_empt += [b for (b, si, s_) in a.stores_to_field('new_data')]
+        map_empt = [c for c in calls if nm(c) in ('clear', 'take', 'drain') and a.term(c)['args'] and is_map(a.arg(c, 0))]
+        map_empt += [b for (b, si, s_) in a.stores_to_field('new_data_hash_lookup')]
+        if p_.endswith('::new'):
+            continue
+        for c in list_empt:
+            n_empty += 1
+            rets = a.cfg.returns
+            ok = bool(map_empt) and all(a.cfg.must_pass(r, via_blocks=map_empt) for r in rets if r in a.cfg.reach([c]) or r == c)
+            ctx.check(ok, 'R05f', p_, 'map emptied with the list', a.loc(c), 'where the pending chunk list is emptied the self-reference map is emptied on every path to return',
+                      'the pending chunk list is emptied here but the hash -> position map is not: after the cut it still holds positions of the previous xorb and the local dedup query reports chunks the pending xorb does not hold at those positions')
+        ins = [c for c in calls if nm(c) == 'insert' and a.term(c)['args'] and is_map(a.arg(c, 0))]
+        pushes = [c for c in calls if nm(c) == 'push' and a.term(c)['args'] and is_list(a.arg(c, 0))]
+        for c in ins:
+            n_ins += 1
+            pos = a.arg(c, 2)
+            while pos[0] == 'cast':
+                pos = pos[1]
+            is_len = (pos[0] == 'len' and is_list(pos[1])) or (pos[0] == 'call' and sg(pos[1]).split('::')[-1] == 'len' and is_list(pos[2][0]))
+            ctx.check(is_len, 'R05f', p_, 'position entered', a.loc(c), 'a hash is entered with self.new_data.len() as its position',
+                      'a hash is entered into the self-reference map with position %s, not the length of the pending chunk list' % flow.show(pos)[:60])
+            # the push of that chunk follows before anything else changes the list: no other push/emptying between
+            nxt = a.cfg.reach(list(a.cfg.succ[c]), cut_blocks=pushes)
+            bad = [x for x in list(a.cfg.returns) + ins + list_empt if x in nxt and x != c] + ([c] if c in nxt else [])
+            key = a.arg(c, 1)
+            same = [pp for pp in pushes if flow.mentions(key, lambda z: z[0] == 'field' and z[2] == 'hash' and flow.eqv(z[1], a.arg(pp, 1)))]
+            ctx.check(bool(same) and not bad, 'R05f', p_, 'push follows', a.loc(c),
+                      'the chunk whose hash is entered is pushed next, before another insert, an emptying or the return',
+                      'after the hash is entered the function can return, enter another hash or empty the list without having pushed the chunk: the recorded position does not hold that chunk')
+            # the position is read before the push: the insert is not reachable from the push of the same iteration without passing the loop head
+            lp = loop_of(a, c)
+            if lp is not None:
+                latches = [(x, lp[0]) for x in lp[1] if lp[0] in a.cfg.succ[x]]
+                aft = set()
+                for pp in same:
+                    aft |= a.cfg.reach(list(a.cfg.succ[pp]), cut_edges=set(latches))
+                ctx.check(c not in aft, 'R05f', p_, 'position before push', a.loc(c), 'the position is taken before the chunk is pushed',
+                          'the hash is entered after its chunk was pushed: the recorded position is one past the chunk')
+        other = [c for c in calls if a.term(c)['args'] and is_map(a.arg(c, 0)) and nm(c) not in ('insert', 'clear', 'get', 'contains_key', 'len', 'is_empty', 'deref', 'take', 'drain', 'iter')]
+        ctx.check(not other, 'R05f', p_, 'other map writes', a.loc(other[0]) if other else '-', 'no other operation changes the self-reference map') if (ins or map_empt or other) else None
+    ctx.floor('R05f', 'sites that empty the pending chunk list', n_empty, 1)
+    ctx.floor('R05f', 'insertions into the self-reference map', n_ins, 1)
